@@ -70,16 +70,16 @@ func generate(prog *ssa.Program, db *ContractDB, fn *ssa.Function, fc *FuncContr
 		c.opaque[o] = true
 	}
 	for _, ax := range db.axioms {
-		if ax.Lemma {
-			used := false
-			for _, u := range fc.Use {
-				if u == ax.Name {
-					used = true
-				}
+		used := false
+		for _, u := range fc.Use {
+			if u == ax.Name {
+				used = true
 			}
-			if !used {
-				continue
-			}
+		}
+		// axioms apply to the functions of the package that states them; other
+		// packages (and all lemmas) must name them with `use`
+		if !used && (ax.Lemma || ax.Pkg != fc.Pkg) {
+			continue
 		}
 		t, err := c.axiomTerm(ax)
 		if err != nil {
